@@ -1,7 +1,7 @@
 (* C08  Bytes sent to the terminal arrive once, in order, or the loss is flagged.
    The port model is polymorphic in the payload: the theorems hold for bytes carrying any ghost tag. *)
 From Coq Require Import ZArith List Bool.
-From Dmd Require Import Model.Bits Model.Fifo Model.Mem Model.Duart Proofs.FifoProofs Proofs.PortProofs Proofs.DuartProofs Proofs.DeviceRefine Model.Bus Proofs.BusDuart.
+From Dmd Require Import Model.Bits Model.Fifo Model.Mem Model.Duart Proofs.FifoProofs Proofs.PortProofs Proofs.DuartProofs Proofs.DeviceRefine Model.Bus Proofs.BusDuart Gen.GenDuart Proofs.RegMapTie.
 Import ListNotations.
 Open Scope Z_scope.
 
@@ -122,3 +122,20 @@ Theorem C08_guest_rx_delivered_is_subsequence_of_queued :
     subseq D' E' /\ d' = duart_ (fold_left (fun s o => sys_step o s) ops (bus_new now)).
 Proof. exact guest_rx_delivered_subseq. Qed.
 Print Assumptions C08_guest_rx_delivered_is_subsequence_of_queued.
+
+(* ---- the register map is the source's (Gen/GenDuart.v is regenerated from /repo/src/duart.rs on every run) ---- *)
+Theorem C08_register_map_is_source_register_map :
+  (forall off d, duart_read_byte off d = RErr BNoDevice <-> ~ In (w8 off) (arm_offsets gd_read_arms))
+  /\ (forall off ports clr b d,
+        In (off, ports, clr) gd_read_arms -> chan_op b (DRead off) d <> None -> In (chan_no b) ports)
+  /\ (chan_base false + 3 = gd_MR12A /\ chan_base false + 7 = gd_CSRA /\ chan_base false + 11 = gd_CRA
+      /\ chan_base false + 15 = gd_RHRA /\ chan_base false + 15 = gd_THRA
+      /\ chan_base true + 3 = gd_MR12B /\ chan_base true + 7 = gd_CSRB /\ chan_base true + 11 = gd_CRB
+      /\ chan_base true + 15 = gd_RHRB /\ chan_base true + 15 = gd_THRB
+      /\ gd_PORT_0 = chan_no false /\ gd_PORT_1 = chan_no true)
+  /\ DUART_BASE = gd_START_ADDR.
+Proof.
+  split; [exact read_decoded|]. split; [exact read_arm_channel|].
+  split; [exact register_offsets_are_source_constants | reflexivity].
+Qed.
+Print Assumptions C08_register_map_is_source_register_map.
